@@ -22,6 +22,7 @@ package main
 
 import (
 	"fmt"
+	"math"
 	"sort"
 	"strings"
 
@@ -658,7 +659,7 @@ func c03Sizes(B int) []int {
 
 func runC03(c *runCtx) error {
 	r := newRng(c.seed)
-	header := "From Coq Require Import List String ZArith.\nFrom KV Require Import Base.Bytes Model.Ast Model.Value Corr.EvalCommon Corr.C03.\nImport ListNotations.\nOpen Scope string_scope.\n"
+	header := "From Coq Require Import List String ZArith.\nFrom KV Require Import Base.Bytes Model.Ast Model.Value Corr.EvalCommon Corr.C03.\nFrom KV Require Import Model.SelectPlans Corr.C03Stmt.\nFrom KV Require Model.Order Spec.Group.\nImport ListNotations.\nOpen Scope string_scope.\nNotation case := xcase (only parsing).\nNotation mismatches := xmismatches (only parsing).\nNotation CaseE := XCaseE (only parsing).\nNotation CaseS := XCaseS (only parsing).\nNotation CaseL := XCaseL (only parsing).\n"
 	e := newEmitter(c.out, "C03", header, 120)
 	e.m.Rule = "A: typed expressions (all scalar functions, IN, BETWEEN, aliases; depth <= 3) and ill-typed shapes hidden from the checker inside !( ), each on the 11 reference pairs and on a random chunk whose first pair varies; B: FullScanPlan+ProjectionPlan from checked statements x stores of every size 0..3B+1 x B in {1,2,3,5,32}; C: whole statements (ORDER BY with and without ties, GROUP BY with every aggregate, LIMIT, narrowed scans, cache on/off) x the same stores and batch sizes; non-trivial = non-empty input accepted by the parser; distinct = distinct Gallina terms"
 	thorough := c.thorough() || c.search
@@ -805,6 +806,8 @@ func runC03(c *runCtx) error {
 			}
 		}
 	}
+	// ---------------- part D: ORDER BY / GROUP BY against the composed twin; directed classes
+	c03w2Stream(e, r, thorough)
 	return e.flush()
 }
 
@@ -813,4 +816,456 @@ func runC03(c *runCtx) error {
 func c03Fields2(r *rng) string {
 	return pick(r, []string{"*", "key, value", "key, int(value), upper(value)", "key, split(value, ',')[0], strlen(value)",
 		"key, value in ('7', '12'), int(value) between 0 and 9", "key, list(value, 2), float(value) * 2", "key, substr(value, 0, 2) + key"})
+}
+
+// ------------------------------------------------------------------ part D (c03w2): statements with ORDER BY /
+// GROUP BY against the composed twin (Model/SelectPlans.v, Corr/C03Stmt.v), and directed
+// statement classes for the direct row-vs-batch verdict.
+//
+// A CaseQ is one statement through Optimizer.BuildPlan: the plan BuildPlan returned is walked
+// (FinalLimitPlan / FinalOrderPlan / ProjectionPlan or AggregatePlan / FullScanPlan) and its
+// pieces are printed: the node kinds (shape), the scan's WHERE clause and the projection's or
+// aggregate's expressions as the optimizer left them, names and types, ORDER BY and LIMIT as
+// parsed.  The Coq side rebuilds the shape with build_final_plan, runs the composed twin in both
+// modes and compares (ORDER BY: modulo ties).  Statements whose scan was narrowed are judged by
+// the Go-side verdict only.
+
+var c03w2TypeCtor = map[kvql.Type]string{kvql.TUNKNOWN: "Order.TUNKNOWN", kvql.TBOOL: "Order.TBOOL", kvql.TSTR: "Order.TSTR",
+	kvql.TNUMBER: "Order.TNUMBER", kvql.TIDENT: "Order.TIDENT", kvql.TLIST: "Order.TLIST", kvql.TJSON: "Order.TJSON"}
+
+func c03w2Z(z int64) string {
+	if z < 0 {
+		return fmt.Sprintf("(%d)%%Z", z)
+	}
+	return fmt.Sprintf("%d%%Z", z)
+}
+
+func c03w2Val(c any) string {
+	switch v := c.(type) {
+	case []byte:
+		return "Order.VBytes " + coqStr(string(v))
+	case string:
+		return "Order.VStr " + coqStr(v)
+	case bool:
+		return "Order.VBool " + coqBool(v)
+	case int64:
+		return "Order.VInt " + c03w2Z(v)
+	case int:
+		return "Order.VInt " + c03w2Z(int64(v))
+	case int32:
+		return "Order.VInt " + c03w2Z(int64(v))
+	case float64:
+		return fmt.Sprintf("Order.VFloat %d%%Z", math.Float64bits(v))
+	}
+	return "Order.VOther \"\""
+}
+
+func c03w2Obs(res runResult) string {
+	if res.Panic != "" {
+		return "QPanic"
+	}
+	if res.Err != nil {
+		o := coqObs(nil, res.Err, "")
+		return "(QErr" + strings.TrimPrefix(strings.TrimSuffix(o, ")"), "(OErr") + ")"
+	}
+	p := make([]string, len(res.Rows))
+	for i, row := range res.Rows {
+		c := make([]string, len(row))
+		for j, col := range row {
+			c[j] = "(" + c03w2Val(col) + ")"
+		}
+		p[i] = coqList(c)
+	}
+	return "(QRows " + coqList(p) + ")"
+}
+
+func c03w2Orders(os []kvql.OrderField) (string, bool) {
+	p := make([]string, len(os))
+	ok := true
+	for i, o := range os {
+		ft := "(EName 0 \"\")"
+		if o.Field != nil {
+			var okf bool
+			ft, okf = coqExpr(o.Field)
+			ok = ok && okf
+		}
+		p[i] = fmt.Sprintf("(Order.OrderField %s %s %s)", coqStr(o.Name), ft, coqBool(o.Order == kvql.DESC))
+	}
+	return coqList(p), ok
+}
+
+type c03w2Parts struct {
+	shape    string
+	where    kvql.Expression
+	proj     *kvql.ProjectionPlan
+	agg      *kvql.AggregatePlan
+	names    []string
+	types    []kvql.Type
+	fullScan bool
+	kinds    []string
+}
+
+func c03w2Walk(p any, out *c03w2Parts) (string, bool) {
+	scan := func(child kvql.Plan) {
+		if fs, ok := child.(*kvql.FullScanPlan); ok && fs.Filter != nil && fs.Filter.Ast != nil {
+			out.fullScan, out.where = true, fs.Filter.Ast.Expr
+			out.kinds = append(out.kinds, "FullScanPlan")
+		} else {
+			out.kinds = append(out.kinds, strings.TrimPrefix(fmt.Sprintf("%T", child), "*kvql."))
+		}
+	}
+	switch x := p.(type) {
+	case *kvql.FinalLimitPlan:
+		out.kinds = append(out.kinds, "FinalLimitPlan")
+		ch, ok := c03w2Walk(x.ChildPlan, out)
+		return fmt.Sprintf("(SLimit %d %d %s)", x.Start, x.Count, ch), ok && x.Start >= 0 && x.Count >= 0
+	case *kvql.FinalOrderPlan:
+		out.kinds = append(out.kinds, "FinalOrderPlan")
+		ch, ok := c03w2Walk(x.ChildPlan, out)
+		os, ok2 := c03w2Orders(x.Orders)
+		out.names, out.types = x.FieldNames, x.FieldTypes
+		return "(SOrder " + os + " " + ch + ")", ok && ok2
+	case *kvql.ProjectionPlan:
+		out.kinds = append(out.kinds, "ProjectionPlan")
+		out.proj = x
+		if out.names == nil {
+			out.names, out.types = x.FieldNameList(), x.FieldTypeList()
+		}
+		scan(x.ChildPlan)
+		return "SProj", true
+	case *kvql.AggregatePlan:
+		out.kinds = append(out.kinds, "AggregatePlan")
+		out.agg = x
+		if out.names == nil {
+			out.names, out.types = x.FieldNameList(), x.FieldTypeList()
+		}
+		scan(x.ChildPlan)
+		lim := "None"
+		if x.Limit >= 0 {
+			lim = fmt.Sprintf("(Some %d)", x.Limit)
+		}
+		return fmt.Sprintf("(SAgg %d %s)", x.Start, lim), x.Start >= 0
+	}
+	out.kinds = append(out.kinds, strings.TrimPrefix(fmt.Sprintf("%T", p), "*kvql."))
+	return "SProj", false
+}
+
+var c03w2AggCtor = map[string]string{"count": "Group.ACount", "sum": "Group.ASum", "avg": "Group.AAvg", "min": "Group.AMin",
+	"max": "Group.AMax", "json_arrayagg": "Group.AJsonArrayAgg"}
+
+// c03w2Aexpr translates a select field that holds aggregate calls into Spec/Group.v's aexpr;
+// calls and args are appended in the order AggregatePlan.listAggrFuncs visits them.
+func c03w2Aexpr(e kvql.Expression, calls *[]string, args *[]string) (string, bool) {
+	switch x := e.(type) {
+	case *kvql.BinaryOpExpr:
+		op, ok := map[kvql.Operator]string{kvql.Add: "Group.Plus", kvql.Sub: "Group.Minus", kvql.Mul: "Group.Times", kvql.Div: "Group.Divide"}[x.Op]
+		if !ok {
+			return "", false
+		}
+		l, ok1 := c03w2Aexpr(x.Left, calls, args)
+		r, ok2 := c03w2Aexpr(x.Right, calls, args)
+		return fmt.Sprintf("(Group.AEBin %s %s %s)", op, l, r), ok1 && ok2
+	case *kvql.NumberExpr:
+		return "(Group.AEInt " + c03w2Z(x.Int) + ")", true
+	case *kvql.FunctionCallExpr:
+		fname, err := kvql.GetFuncNameFromExpr(x)
+		if err != nil || !kvql.IsAggrFunc(fname) || len(x.Args) == 0 {
+			return "", false
+		}
+		ctor, ok := c03w2AggCtor[fname]
+		if fname == "group_concat" {
+			if len(x.Args) < 2 {
+				return "", false
+			}
+			sep, oks := x.Args[1].(*kvql.StringExpr)
+			if !oks {
+				return "", false
+			}
+			ctor, ok = "(Group.AGroupConcat "+coqStr(sep.Data)+")", true
+		}
+		if !ok {
+			return "", false
+		}
+		at, oka := coqExpr(x.Args[0])
+		if !oka {
+			return "", false
+		}
+		idx := len(*calls)
+		*calls = append(*calls, fmt.Sprintf("(Group.Call %s %d)", ctor, len(*args)))
+		*args = append(*args, at)
+		return fmt.Sprintf("(Group.AECall %d)", idx), true
+	}
+	return "", false
+}
+
+func c03w2HasAggr(e kvql.Expression) bool {
+	switch x := e.(type) {
+	case *kvql.BinaryOpExpr:
+		return c03w2HasAggr(x.Left) || c03w2HasAggr(x.Right)
+	case *kvql.FunctionCallExpr:
+		fname, err := kvql.GetFuncNameFromExpr(x)
+		return err == nil && kvql.IsAggrFunc(fname)
+	}
+	return false
+}
+
+// c03w2AggTerms renders the AggregatePlan's inputs: GROUP BY expressions, non-aggregate fields,
+// aggregate arguments, and (AggrAll, Fields) as Spec/Group.v terms.
+func c03w2AggTerms(a *kvql.AggregatePlan) (gs, ks, args, aggr string, ok bool) {
+	ok = true
+	g := []string{}
+	for _, f := range a.GroupByFields {
+		t, okf := coqExpr(f.Expr)
+		ok = ok && okf
+		g = append(g, t)
+	}
+	keys, argl, fields := []string{}, []string{}, []string{}
+	for _, f := range a.Fields {
+		isAgg := false
+		switch f.(type) {
+		case *kvql.FunctionCallExpr, *kvql.BinaryOpExpr:
+			isAgg = c03w2HasAggr(f)
+		}
+		if !isAgg {
+			t, okf := coqExpr(f)
+			ok = ok && okf
+			fields = append(fields, fmt.Sprintf("(Group.FKey %d)", len(keys)))
+			keys = append(keys, t)
+			continue
+		}
+		calls := []string{}
+		t, okf := c03w2Aexpr(f, &calls, &argl)
+		ok = ok && okf
+		fields = append(fields, fmt.Sprintf("(Group.FAgg %s %s)", t, coqList(calls)))
+	}
+	return coqList(g), coqList(keys), coqList(argl), fmt.Sprintf("(Some (%s, %s))", coqBool(a.AggrAll), coqList(fields)), ok
+}
+
+func c03w2Run(q string, kvs [][2]string, batch bool, B int) (res runResult, plan kvql.FinalPlan) {
+	defer func() {
+		if r := recover(); r != nil {
+			res.Panic = fmt.Sprint(r)
+		}
+	}()
+	kvql.PlanBatchSize = B
+	kvql.EnableFieldCache = false
+	st := newStore(kvs)
+	p, err := kvql.NewOptimizer(q).BuildPlan(st)
+	if err != nil {
+		res.Err, res.BuildErr = err, true
+		return
+	}
+	plan = p
+	return drainPlan(p, batch, res), plan
+}
+
+// c03w2Case: one statement, both modes, Go-side verdict and the composed twin.
+func c03w2Case(e *emitter, q string, kvs [][2]string, B int, tieCols int, bucket string) {
+	row, plan := c03w2Run(q, kvs, false, B)
+	if row.BuildErr || plan == nil {
+		e.count("w2:rejected")
+		return
+	}
+	bat, _ := c03w2Run(q, kvs, true, B)
+	parts := &c03w2Parts{}
+	shape, ok := c03w2Walk(plan, parts)
+	planText := strings.Join(parts.kinds, " <- ")
+	rp := c03Replay{Kind: "statement (composed twin)", Query: q, B: B, Pairs: kvs, Plan: planText, BatLens: bat.BatchLen}
+	bad := c03Verdict(row, bat, tieCols)
+	if bad != "" {
+		rp.What, rp.RowObs, rp.BatObs = bad, c03Outcome(row, tieCols), c03Outcome(bat, tieCols)
+	}
+	// the statement as parsed: ORDER BY and LIMIT as written
+	order, limit := "None", "None"
+	if stmt, err := kvql.NewParser(q).Parse(); err == nil {
+		if sel, oks := stmt.(*kvql.SelectStmt); oks {
+			if sel.Order != nil {
+				os, oko := c03w2Orders(sel.Order.Orders)
+				ok = ok && oko
+				order = "(Some " + os + ")"
+			}
+			if sel.Limit != nil {
+				limit = fmt.Sprintf("(Some (%d, %d))", sel.Limit.Start, sel.Limit.Count)
+				ok = ok && sel.Limit.Start >= 0 && sel.Limit.Count >= 0
+			}
+		} else {
+			ok = false
+		}
+	} else {
+		ok = false
+	}
+	term := ""
+	if ok && parts.fullScan {
+		wt, okw := coqExpr(parts.where)
+		ok = ok && okw
+		fields, gs, ks, args, aggr := "None", "[]", "[]", "[]", "None"
+		if parts.agg != nil {
+			var oka bool
+			gs, ks, args, aggr, oka = c03w2AggTerms(parts.agg)
+			ok = ok && oka
+		} else if parts.proj != nil {
+			if !parts.proj.AllFields {
+				p := make([]string, len(parts.proj.Fields))
+				for i, f := range parts.proj.Fields {
+					var okf bool
+					p[i], okf = coqExpr(f)
+					ok = ok && okf
+				}
+				fields = "(Some " + coqList(p) + ")"
+			}
+		} else {
+			ok = false
+		}
+		types := make([]string, len(parts.types))
+		for i, t := range parts.types {
+			types[i] = c03w2TypeCtor[t]
+		}
+		if ok {
+			term = fmt.Sprintf("CaseQ (QCase %d %s %s %s %s %s %s %s %s %s %s %s %s %s %s)", B, wt, fields, gs, ks, args, aggr,
+				coqStrList(parts.names), coqList(types), order, limit, shape, coqPairs(kvs), c03w2Obs(row), c03w2Obs(bat))
+		}
+	}
+	if term == "" {
+		// outside what the composed twin takes (narrowed scan, field outside Spec/Group.v's aexpr,
+		// quantile): verdict only
+		e.count("w2:verdict_only")
+		if !parts.fullScan {
+			e.count("w2:scan_narrowed")
+		}
+		term = fmt.Sprintf("CaseS false (EBool 0 true) None %d [] %s %s []", B, coqSobs(row, tieCols), coqSobs(bat, tieCols))
+	} else {
+		e.count("w2:twin")
+	}
+	idx := e.add(term, rp, len(kvs) > 0)
+	c03CountStmt(e, "w2stmt", row, bat, B, len(kvs))
+	e.count("w2:" + bucket)
+	for _, k := range parts.kinds {
+		e.count("w2plan:" + k)
+	}
+	if bad != "" {
+		e.fail(idx, bad, "C03/stmt-row-vs-batch", rp)
+	}
+}
+
+// stores for the directed classes: small integers (all arithmetic exact), keys k00, k01, ...
+func c03w2IntStore(r *rng, n int, lo, hi int) [][2]string {
+	kvs := make([][2]string, 0, n)
+	for i := 0; i < n; i++ {
+		kvs = append(kvs, [2]string{fmt.Sprintf("k%02d", i), fmt.Sprint(lo + r.intn(hi-lo+1))})
+	}
+	return kvs
+}
+
+func c03w2Stream(e *emitter, r *rng, thorough bool) {
+	Bs := []int{1, 2, 3, 5, 32}
+	wheres := []string{"key != 'zzzz'", "int(value) >= 0", "strlen(value) < 3", "value != 'x'", "int(value) > 2",
+		"!(value = '7')", "10 / (int(value) - 3) != 0", "int(value) between 0 and 9"}
+	templates := func(wh string) [][3]string { // query, tie columns, bucket
+		return [][3]string{
+			{"select key, int(value) as n where " + wh + " order by n desc, key", "0", "order tie-free"},
+			{"select int(value) as n, key where " + wh + " order by n", "1", "order with ties"},
+			{"select strlen(value) as s, int(value) as n, key where " + wh + " order by s desc, n", "2", "order with ties"},
+			{"select key, value where " + wh + " order by key desc limit 1, 3", "0", "order+limit"},
+			{"select int(value) as n, key where " + wh + " order by n desc limit 2, 3", "1", "order+limit with ties"},
+			{"select upper(value) as u, key where " + wh + " order by u, key desc limit 5", "0", "order+limit"},
+			{"select key, value where " + wh + " order by key", "0", "order by key asc (no order node)"},
+			{"select key, value where " + wh + " order by key limit 2, 2", "0", "order by key asc (no order node)+limit"},
+			{"select key, int(value) as n where " + wh + " order by n, key limit 0, 0", "0", "order+limit 0,0"},
+			{"select substr(key, 0, 1) as g, count(1) as c, sum(int(value)) as s where " + wh + " group by g", "0", "group"},
+			{"select substr(key, 0, 1) as g, count(1) as c, sum(int(value)) as s where " + wh + " group by g order by g desc", "0", "group+order"},
+			{"select substr(key, 0, 1) as g, avg(int(value)), min(int(value)), max(int(value)) where " + wh + " group by g limit 1, 2", "0", "group+limit"},
+			{"select count(1), sum(int(value)), min(int(value)), max(int(value)), avg(int(value)) where " + wh, "0", "aggregate all"},
+			{"select strlen(value) as g, group_concat(key, ','), json_arrayagg(key) where " + wh + " group by g", "0", "group"},
+			{"select is_int(value) as g, strlen(key) as h, count(1) as c where " + wh + " group by g, h order by c desc, g, h", "0", "group+order"},
+			{"select key, sum(int(value)) * 2 + count(1) as x where " + wh + " group by key order by x desc, key limit 4", "0", "group+order+limit"},
+			{"select value, count(1) as c where " + wh + " group by value order by c desc, value limit 1, 2", "0", "group+order+limit"},
+		}
+	}
+	perSize := 3
+	if thorough {
+		perSize = 40
+	}
+	for _, B := range Bs {
+		for _, n := range c03Sizes(B) {
+			for k := 0; k < perSize; k++ {
+				wh := pick(r, wheres)
+				ts := templates(wh)
+				t := ts[r.intn(len(ts))]
+				// int(value) on a text that is not an integer is outside the evaluator twin: integer
+				// values wherever the statement converts, mixed texts elsewhere (and sometimes anyway)
+				ints := strings.Contains(t[0], "int(value)") && !r.chance(1, 8)
+				c03w2Case(e, t[0], c03MakeStore(r, n, ints), B, int(t[1][0]-'0'), t[2])
+			}
+		}
+	}
+	// every template once on a store larger than two batches (B = 3), every WHERE clause once
+	for i, t := range templates("key != 'zzzz'") {
+		c03w2Case(e, t[0], c03MakeStore(r, 8+i%3, true), 3, int(t[1][0]-'0'), t[2])
+	}
+	for _, wh := range wheres {
+		ts := templates(wh)
+		c03w2Case(e, ts[0][0], c03MakeStore(r, 7, true), 2, 0, ts[0][2])
+		c03w2Case(e, ts[9][0], c03MakeStore(r, 7, true), 2, 0, ts[9][2])
+	}
+
+	// directed class 1: GROUP BY + LIMIT start, count WITHOUT ORDER BY (the limit is pushed into
+	// the AggregatePlan), more than 2B groups, offsets that are not multiples of B
+	for _, B := range []int{2, 3, 5} {
+		for _, groups := range []int{2*B + 1, 2*B + 2, 3*B + 1, 12, 4*B + 3} {
+			starts := []int{1, B - 1, B + 1, 2*B - 1, 2*B + 1}
+			counts := []int{1, B - 1, B, B + 1, 2 * B, 2*B + 1, 8, groups}
+			reps := 2
+			if thorough {
+				reps = 12
+			}
+			for k := 0; k < reps; k++ {
+				start := pick(r, starts)
+				if start%B == 0 {
+					start++
+				}
+				count := pick(r, counts)
+				if count < 1 {
+					count = 1
+				}
+				// one group per key; and groups of several pairs
+				kvs := c03w2IntStore(r, groups, 0, 6)
+				c03w2Case(e, fmt.Sprintf("select key, count(1) as c, sum(int(value)) as s where key != 'zzzz' group by key limit %d, %d", start, count),
+					kvs, B, 0, "class1: group+limit pushed, start%B!=0")
+				kvs2 := c03w2IntStore(r, 3*groups, 0, 6)
+				c03w2Case(e, fmt.Sprintf("select substr(key, 1, 2) as g, count(1) as c, max(int(value)) as m, min(int(value)) as l where int(value) >= 0 group by g limit %d, %d", start, count),
+					kvs2, B, 0, "class1: group+limit pushed, start%B!=0")
+			}
+		}
+	}
+
+	// directed class 2: one alias referenced three or more times in one scope (later select
+	// fields, WHERE), field cache ON and OFF, small integers (exact arithmetic)
+	aliasStmts := []string{
+		"select key, int(value) as a, a * 2 as b, a * 3 as c, a * 5 as d where key != 'zzzz'",
+		"select key, int(value) as a, a * 2 as b, a * 3 as c, a * 5 as d where 0 < a & 6 > a + 1 & 6 > a + 1",
+		"select key, int(value) as a, a + a + a as t, a * a * a as u where a >= 0 & a < 5 & a != 3",
+		"select key, int(value) as a, a * 2 as b, b + a as c, c + b + a as d where a > 0 | a < 0 | a = 0",
+		"select int(value) as a, a * 2 as b, a * 3 as c, a * 5 as d, key where 0 < a & 6 > a + 1 & 6 > a + 1 order by b desc, key",
+		"select key, int(value) as a, a * 2 as b, a * 3 as c, a * 5 as d where a between 0 and 5 & a in (0, 1, 2, 3, 4, 5) & a != 9 limit 1, 4",
+		"select key, strlen(value) as a, a + 1 as b, a + 2 as c, a + 3 as d where a = 1 | a + a = 2 | a * a = 1",
+	}
+	for _, B := range Bs {
+		sizes := []int{0, 1, B, B + 1, 2*B + 1, 3*B + 1}
+		for _, n := range sizes {
+			reps := 1
+			if thorough {
+				reps = 6
+			}
+			for k := 0; k < reps; k++ {
+				kvs := c03w2IntStore(r, n, 0, 6)
+				q := aliasStmts[r.intn(len(aliasStmts))]
+				c03StmtCase(e, q, kvs, B, true, 0, "class2: alias referenced >= 3 times, cache on")
+				q = aliasStmts[r.intn(len(aliasStmts))]
+				c03StmtCase(e, q, kvs, B, false, 0, "class2: alias referenced >= 3 times, cache off")
+			}
+		}
+	}
+	for _, q := range aliasStmts {
+		c03StmtCase(e, q, c03w2IntStore(r, 11, 0, 6), 3, true, 0, "class2: alias referenced >= 3 times, cache on")
+	}
 }
